@@ -118,14 +118,31 @@ class WarpLoop(asyncio.SelectorEventLoop):
 
 
 class FakeDB:
-    def __init__(self) -> None:
+    """Database handler of the scan.  It already holds the session transitions of an earlier,
+    deeper scan of the same ECU (every session of the graph with a shortest path): the scan
+    itself probes with use_db=False and must not be influenced by that history."""
+
+    def __init__(self, T: set[tuple[int, int]] | None = None) -> None:
         self.rows: list[tuple[int, list[int]]] = []
+        self.lookups = 0
+        self.history: dict[int, list[int]] = {}
+        if T:
+            paths: dict[int, list[int]] = {1: [1]}
+            todo = [1]
+            while todo:
+                c = todo.pop(0)
+                for a, b in sorted(T):
+                    if a == c and b not in paths:
+                        paths[b] = paths[c] + [b]
+                        todo.append(b)
+            self.history = {s: p[:-1] for s, p in paths.items() if s != 1}
 
     async def insert_session_transition(self, session: int, stack: list[int]) -> None:
         self.rows.append((int(session), [int(x) for x in stack]))
 
-    async def get_session_transition(self, level: int) -> None:
-        return None
+    async def get_session_transition(self, level: int) -> list[int] | None:
+        self.lookups += 1
+        return self.history.get(int(level))
 
     async def insert_scan_result(self, *a: Any, **k: Any) -> None:
         return None
@@ -170,8 +187,9 @@ def run_scan(T: set[tuple[int, int]], depth: int, skip: set[int], thorough: bool
     tr = make_ghost_transport(T, nrc_of, budget)
     scanner.ecu = ecu_mod.ECU(tr, timeout=0.5)
     scanner.ecu.implicit_logging = False
-    db = FakeDB()
+    db = FakeDB(T)
     scanner.db_handler = db  # type: ignore[assignment]
+    scanner.ecu.db_handler = db  # type: ignore[assignment]  # as UDSScanner.setup does
     problems: list[str] = []
     aborted = None
     try:
@@ -210,6 +228,9 @@ def run_scan(T: set[tuple[int, int]], depth: int, skip: set[int], thorough: bool
             if s not in seen_rows:
                 problems.append(f"no path reported for session {s}")
         del positive_rows
+    if db.lookups:
+        problems.append(f"the scan consulted the stored session transitions {db.lookups} times "
+                        f"(probes are made with use_db=False)")
     for cur, want, _ in tr.requested:
         if want in skip and want != 1:
             problems.append(f"skipped session {want} was requested (from {cur})")
@@ -297,8 +318,9 @@ def standin_unit(tier: str, seed: int, k: int, n: int):
         I.ghost["standin"] = r
         detail = "; ".join(f"{b['case']}: {b['problems']}" for b in r["bad"][:2])
         I.prove(f"B-scan-postcondition-holds-on-every-graph-of-the-family"
-                f"(chunk-{k}/{n}:{r['n']}-scans,{r['requests']}-requests,bounded-standin)",
-                z3.BoolVal(r["n_bad"] == 0), detail)
+                f"(chunk-{k}/{n},bounded-standin)",
+                z3.BoolVal(r["n_bad"] == 0),
+                detail or f"{r['n']} scans, {r['requests']} requests")
         I.prove(f"B-family-not-empty(chunk-{k})", z3.BoolVal(r["n"] > 0))
     return harness
 
